@@ -35,8 +35,9 @@ Inductive mn := MN (self : option (N * N)) (is_value : bool) (e : N) (eref : N *
 Inductive case :=
 | CFile (enc : bool) (ra rk : N) (st : list ent) (trav data pyr : obs)
     (* Traverse / GetChunkHashes(nil) / GetPyramid of a non-manifest reference; pyr sorted, distinct *)
-| CIter (enc : bool) (ra rk : N) (st : list ent) (trav data : obs)
-    (* joiner.New + IterateChunkAddresses (+SetSaveDataChunks) directly, deep synthetic trees *)
+| CIter (enc : bool) (ra rk : N) (st : list ent) (trav data edge : obs)
+    (* joiner.New + IterateChunkAddresses (+SetSaveDataChunks, +SetSaveEdgeChunks: key set, sorted)
+       directly, fabricated two-level trees *)
 | CMan (enc : bool) (m : mn) (st : list ent) (trav pyr : obs).
     (* Traverse / GetPyramid of a manifest reference; both sorted (Go map order), pyr distinct *)
 
@@ -84,7 +85,8 @@ Definition model_out (c : case) : list out :=
        out_of_lres sort_dedup (pyramid_file p s r)]
   | CIter enc ra rk st _ _ =>
       let p := params_of enc in let s := mk_store st in let r := mkRef ra rk in
-      [out_of_lres id_list (traverse_file p s r); out_of_lres id_list (chunk_hashes_file p s r)]
+      [out_of_lres id_list (traverse_file p s r); out_of_lres id_list (chunk_hashes_file p s r);
+       out_of_lres sort_dedup (lmap edges (iterate p s r))]
   | CMan enc m st _ _ =>
       let p := params_of enc in let s := mk_store st in
       [out_of_lres sortN (traverse_manifest p s (mnode_of m)); out_of_lres sort_dedup (pyramid_manifest p s (mnode_of m))]
@@ -92,7 +94,7 @@ Definition model_out (c : case) : list out :=
 Definition obs_out (c : case) : list out :=
   match c with
   | CFile _ _ _ _ t d y => [out_of_obs t; out_of_obs d; out_of_obs y]
-  | CIter _ _ _ _ t d => [out_of_obs t; out_of_obs d]
+  | CIter _ _ _ _ t d e => [out_of_obs t; out_of_obs d; out_of_obs e]
   | CMan _ _ _ t y => [out_of_obs t; out_of_obs y]
   end.
 
